@@ -187,6 +187,16 @@ def check_conv(case, rec=None):
             fails.append(exc_failure(name, m))
         elif (np.asarray(m, bool) != expq)[~eq].any():
             bad(name, "%s differs from the half-step rule |dty_calc - dty(dtyi)| <= ystep/2" % name)
+    # the row of the scan that holds the point at each angle, asked for directly (from step and from recon
+    # coordinates): the nearest row to the in-beam dty - also when the axis (y0) lies between two rows
+    for name, fn in (("step_omega_to_dtyi", lambda: G.step_omega_to_dtyi(si_e[q], sj_e[q], om, y0, ystep, ymin)),
+                     ("recon_omega_to_dtyi", lambda: G.recon_omega_to_dtyi(ri_e[q], rj_e[q], om, y0, shape, ystep, ymin))):
+        ok, ki_ = guard(fn)
+        if not ok:
+            fails.append(exc_failure(name, ki_))
+        elif (np.abs(dq - (np.asarray(ki_) * ystep + ymin)) > ystep / 2 * (1 + 1e-9))[~eq].any():
+            bad(name, "%s: the row returned is not the nearest one to the dty that brings the point into the beam "
+                      "(worst %.3f steps away)" % (name, float(np.abs(dq - (np.asarray(ki_) * ystep + ymin)).max() / ystep)))
     if rec is not None and (eq.any() or edge.any()):
         rec.exclude("value exactly on a half-step boundary of the dtyi discretisation", int(eq.sum() + edge.sum()))
     # get_voxel_idx
@@ -627,6 +637,12 @@ def check_consumers(case, rec=None):
         def pipeline():
             ref = pbp.PBPRefine(ds, "phase", y0=y0)
             ij = np.array(G.step_grid_from_ybincens(ybc, ystep, 1, y0))
+            if case["seed"] % 2 and len(ij) > 25:
+                # a map with holes: one interior row and one interior column of grid points hold no grain (a sample in
+                # pieces): the refinement grid still spans the whole extent, one point per step
+                i0_ = int(np.median(ij[:, 0])) + 1
+                j0_ = int(np.median(ij[:, 1])) - 1
+                ij = ij[(ij[:, 0] != i0_) & (ij[:, 1] != j0_)]
             pm = pbp.PBPMap(new=True)
             pm.nrows = len(ij)
             pm.addcolumn(ij[:, 0].copy(), "i")
@@ -643,7 +659,17 @@ def check_consumers(case, rec=None):
         if not ok:
             return [exc_failure("PBPRefine.setmap/setmask", ref)]
         m = np.asarray(ref.mask, bool)
-        if m.shape != ref.sx_grid.shape:
+        ijf = np.array(G.step_grid_from_ybincens(ybc, ystep, 1, y0))
+        gi_, gj_ = np.meshgrid(np.arange(ijf[:, 0].min(), ijf[:, 0].max() + 1),
+                               np.arange(ijf[:, 1].min(), ijf[:, 1].max() + 1), indexing="ij")
+        ex_, ey_ = G.step_to_sample(gi_, gj_, ystep)
+        if np.shape(ref.sx_grid) != ex_.shape or not (np.allclose(ref.sx_grid, ex_, atol=1e-9 * ystep) and
+                                                        np.allclose(ref.sy_grid, ey_, atol=1e-9 * ystep)):
+            fails.append(fail("setmask", "setmap: the refinement grid (shape %s) is not the step grid of the map's extent "
+                              "(shape %s) in sample coordinates%s; %s" % (np.shape(ref.sx_grid), ex_.shape,
+                              " - the map has a row and a column without grains" if case["seed"] % 2 else "", where),
+                              what="grid"))
+        elif m.shape != ref.sx_grid.shape:
             fails.append(fail("setmask", "setmask: mask shape %s, map grid %s; %s" % (m.shape, ref.sx_grid.shape, where),
                               what="shape"))
         elif m.sum() == 0:
